@@ -20,6 +20,10 @@ import (
 
 var debugInt = os.Getenv("GOSYM_DEBUG_INT") != ""
 
+// LastIntHasUF reports whether the last ScriptInt call abstracted uninterpreted-function
+// applications as free integers (its `sat` answers are then not models of the query).
+var LastIntHasUF bool
+
 func pow2(w int) string { return new(big.Int).Lsh(big.NewInt(1), uint(w)).String() }
 
 // ScriptInt renders the query over Ints. ok=false if some operator cannot be translated.
@@ -79,6 +83,8 @@ func ScriptInt(asserts []*term.Term) (script string, vars []*term.Term, ok bool)
 		return nil, false
 	}
 	ok = true
+	hasUF := false
+	defer func() { LastIntHasUF = hasUF }()
 	defer func() {
 		if !ok && debugInt {
 			for _, t := range order {
@@ -173,7 +179,17 @@ func ScriptInt(asserts []*term.Term) (script string, vars []*term.Term, ok bool)
 				s += " " + name(a)
 			}
 			e = s + ")"
-		case term.KUF, term.KSelect:
+		case term.KUF:
+			// an uninterpreted-function application becomes a free integer of its width: sound for
+			// `unsat` (functional consistency is an extra constraint); a `sat` answer of this back
+			// end is then not trusted (HasUF) and the next solver is asked
+			if t.W == 0 {
+				return "", nil, false
+			}
+			fmt.Fprintf(&sb, "(declare-const ufapp%d Int)\n(assert (and (<= 0 ufapp%d) (< ufapp%d %s)))\n", t.ID, t.ID, t.ID, pow2(t.W))
+			e = fmt.Sprintf("ufapp%d", t.ID)
+			hasUF = true
+		case term.KSelect:
 			return "", nil, false
 		case term.KShl, term.KLshr, term.KAshr:
 			c, isC := constOf(t.Args[1])
